@@ -10,7 +10,8 @@ work function started (its id is in the run log) or is held by the scheduler:
 PARTIAL: as for C05, the scripts contain the driver's part of the contract (`DriverOk`): a retryable
 `DispatchErr` is handed to `Retry`, not dropped by calling `Step` again. Without ghost state the
 alternative "or its DispatchErr state was overwritten by a later Step" cannot be expressed as a state
-predicate; `C20_step_over_dispatchErr_witness` exhibits exactly that situation.
+predicate; `C20_step_over_dispatchErr_now` exhibits exactly that situation (it survives the repair of D21:
+restarting the timer does not bring back a task that is already marked dispatched).
 What remains for full C20-recovery: the *eventual* part (once faults stop, finitely many `Retry`s run
 the task) — a progress argument, see `C05_progress_partial`.
 -/
@@ -79,14 +80,37 @@ example :
     ((World.init' C05.t0).run acts).ret = .dispatched "t1" := by
   decide
 
-/-- REAL FINDING (driver contract): if the driver answers the `DispatchErr` with `Step` instead of
-`Retry`, t1 stays `dispatched` forever although its work function never ran: nothing in the
-scheduler's state refers to it any more, and no timer will ever fire for it (it is not scheduled). -/
-theorem C20_step_over_dispatchErr_witness :
-    let acts := C20.markFails ++ [.sched .beginStep, .sched .lastTimerErr, .sched .selCtx]
+-- WORLDFIX: `C20_step_over_dispatchErr_witness` as stated is no longer true: with D21 repaired (`dispatchTask` sets
+-- `getNextErr` when it gives up) the second `Step` starts with the restart prologue, so the old call sequence
+-- `[beginStep, lastTimerErr, selCtx]` is not a run of the code any more (the automaton is `stuck` at `s_stop`).
+-- The FINDING itself survives the repair, see `C20_step_over_dispatchErr_now`. Kept for the record:
+-- theorem C20_step_over_dispatchErr_witness :
+--     let acts := C20.markFails ++ [.sched .beginStep, .sched .lastTimerErr, .sched .selCtx]
+--     let w := (World.init' C05.t0).run acts
+--     World.UserScript (World.init' C05.t0) acts ∧ ¬ World.Script (World.init' C05.t0) acts ∧
+--     w.pc = .idle ∧ w.stuck = false ∧ w.ret = .awaitingNext ∧ w.lastTask = none ∧
+--     w.log = [] ∧ w.running = [] ∧ w.completed = [] ∧ w.reported = [] ∧
+--     w.obs.repo.tasks.map (fun t => (t.id, t.state)) = [("t1", .dispatched)]
+
+/-- REAL FINDING (driver contract), what happens NOW (D21 repaired): if the driver answers the
+`DispatchErr(t1, other)` — t1 already marked dispatched by the failed attempt — with `Step` instead of `Retry`,
+* the old call sequence is not a run of the code (the `Step` begins with the restart prologue: `stuck`);
+* the actual run restarts the timer (`StopTimer`, `StartTimer`, no timer error), but that does NOT help: t1 is
+  not scheduled any more, so nothing is armed and nothing pending, `select` blocks until the context ends
+  (`AwaitingNext`), the restart request is consumed, and t1 stays `dispatched` forever although its work
+  function never ran: nothing in the scheduler's state refers to it any more. The repair of D21 re-announces
+  tasks that are still scheduled (`C05_step_over_dispatchErr_now`); it cannot recover a task whose mark took
+  effect — that still needs `Retry`. -/
+theorem C20_step_over_dispatchErr_now :
+    let old := C20.markFails ++ [.sched .beginStep, .sched .lastTimerErr, .sched .selCtx]
+    let acts := C20.markFails ++
+      [.sched .beginStep, .sched .stopTimer, .sched (.startTimer none), .sched .lastTimerErr, .sched .selCtx]
     let w := (World.init' C05.t0).run acts
+    ((World.init' C05.t0).run old).stuck = true ∧
+    ((World.init' C05.t0).run C20.markFails).getNextErr = true ∧
     World.UserScript (World.init' C05.t0) acts ∧ ¬ World.Script (World.init' C05.t0) acts ∧
-    w.pc = .idle ∧ w.stuck = false ∧ w.ret = .awaitingNext ∧ w.lastTask = none ∧
+    w.pc = .idle ∧ w.stuck = false ∧ w.ret = .awaitingNext ∧ w.lastTask = none ∧ w.getNextErr = false ∧
+    w.obs.clock.pending = false ∧ w.obs.clock.armed = none ∧
     w.log = [] ∧ w.running = [] ∧ w.completed = [] ∧ w.reported = [] ∧
     w.obs.repo.tasks.map (fun t => (t.id, t.state)) = [("t1", .dispatched)] := by
   decide
